@@ -138,17 +138,19 @@ class World:
         return out
 
     def robust_model(self, assumptions, goal, vars_, counts=(), count_max=6):
-        """Look for a counterexample whose inputs are small integers (counts in 0..6), so that it survives rounding when
-        replayed in doubles. Returns values dict or None."""
-        extra = []
-        for v in vars_:
-            if any(v is c or str(v) == str(c) for c in counts):
-                extra.append(z3.Or(*[v == k for k in range(0, count_max + 1)]))
-            else:
-                extra.append(z3.Or(*[v == k for k in range(-6, 7)]))
-        r = self.check(list(assumptions) + extra, goal, timeout_ms=20000)
-        if r[0] == "sat":
-            return self.model_values(r[1], vars_)
+        """Look for a counterexample whose inputs are small integers (counts in 0..count_max), so that it survives rounding
+        when replayed in doubles; a second attempt uses the same grid scaled by 2^-60 (mutants that only bite on tiny data).
+        Returns values dict or None."""
+        for scale in (z3.RealVal(1), z3.RealVal(1) / (2 ** 60)):
+            extra = []
+            for v in vars_:
+                if any(v is c or str(v) == str(c) for c in counts):
+                    extra.append(z3.Or(*[v == k for k in range(0, count_max + 1)]))
+                else:
+                    extra.append(z3.Or(*[v == k * scale for k in range(-6, 7)]))
+            r = self.check(list(assumptions) + extra, goal, timeout_ms=20000)
+            if r[0] == "sat":
+                return self.model_values(r[1], vars_)
         return None
 
     def prove(self, name, assumptions, goal, role=None, witness_vars=None, note="", replay=None):
